@@ -106,10 +106,37 @@ class _Eval:
 
 _EVAL = _Eval()
 
+STUB_STR = ('builtin str as seen from evaluate_integer.python_evaluate: for an int argument it returns a string or - a symbolic boolean '
+            'chooses - raises ValueError (contract: CPython\'s limit on integer-to-string conversion, 4300 digits by default); any other '
+            'argument goes to the real str')
+TOO_BIG = 'Exceeds the limit (4300 digits) for integer string conversion {x} { } %s'
 
-def _install_eval(kind: int, sel: int, n: int):
+
+class _Str:
+    """Stands in for the builtin `str` in the module evaluate_integer."""
+
+    def __init__(self):
+        self.int_cannot_be_displayed = False
+        self.int_calls = 0
+
+    def __call__(self, *a, **k):
+        if len(a) == 1 and not k and isinstance(a[0], int) and not isinstance(a[0], bool):
+            self.int_calls += 1
+            if self.int_cannot_be_displayed:
+                raise ValueError(TOO_BIG)
+            return '<the digits of the integer>'
+        return str(*a, **k)
+
+
+_STR = _Str()
+
+
+def _install_eval(kind: int, sel: int, n: int, big: bool = False):
     from exactly_lib.impls.types.integer import evaluate_integer
     evaluate_integer.eval = _EVAL  # a module global shadows the builtin for python_evaluate only
+    evaluate_integer.str = _STR
+    _STR.int_cannot_be_displayed = big
+    _STR.int_calls = 0
     _EVAL.calls = []
     if kind == K_INT:
         _EVAL.outcome = ('int', n)
@@ -125,6 +152,8 @@ def _uninstall_eval():
     from exactly_lib.impls.types.integer import evaluate_integer
     if 'eval' in vars(evaluate_integer):
         del evaluate_integer.eval
+    if 'str' in vars(evaluate_integer):
+        del evaluate_integer.str
 
 
 def _exc_names(c) -> tuple:
@@ -140,10 +169,12 @@ def _names_text(sample: str) -> str:
     return 'the sample %s of the exception catalogue' % (list(exc.SAMPLES[sample]),)
 
 
-def _pre_k1(kind: int, sel: int, n: int) -> bool:
+def _pre_k1(kind: int, sel: int, n: int, big: bool) -> bool:
     c = ob.case()
     if not (0 <= kind <= 3):
         return False
+    if big and kind != K_INT:
+        return False  # whether an integer can be converted to a string only matters when there is one
     if kind == K_EXIT:
         return sel == 0 and n == 0 and not ob.excluded(REGION_EVAL_EXIT)
     if kind == K_INT:
@@ -167,14 +198,15 @@ def _pre_k1(kind: int, sel: int, n: int) -> bool:
     return True
 
 
-def k1_evaluate(kind: int, sel: int, n: int) -> bool:
+def k1_evaluate(kind: int, sel: int, n: int, big: bool) -> bool:
     """
-    pre: _pre_k1(kind, sel, n)
+    pre: _pre_k1(kind, sel, n, big)
     post: _
     """
     from exactly_lib.impls.types.integer import evaluate_integer
     kind = ob.concrete_int(kind, 0, 3)
-    _install_eval(kind, sel, n)
+    big = ob.concrete_bool(big)
+    _install_eval(kind, sel, n, big)
     bug = ob.case().get('oracle_bug')
     try:
         got = evaluate_integer.python_evaluate(EXPR)
@@ -188,17 +220,18 @@ def k1_evaluate(kind: int, sel: int, n: int) -> bool:
         _uninstall_eval()
     if _EVAL.calls != [EXPR]:
         return ob.post(False)
-    if kind == K_INT and not bug:
+    if kind == K_INT and not big and not bug:
         return ob.post(raised is None and got == n)
+    # not an integer, or an integer that cannot be displayed (fix 5cbd3ce): not an integer expression
     return ob.post(raised is not None and raised.value_string == EXPR)
 
 
 CONSUMERS = ('sdv-validator', 'sdv-validator-non-negative', 'ddv-validator', 'ddv-validator-non-negative', 'validation.evaluate')
 
 
-def k1_consumer(kind: int, sel: int, n: int) -> bool:
+def k1_consumer(kind: int, sel: int, n: int, big: bool) -> bool:
     """
-    pre: _pre_k1(kind, sel, n)
+    pre: _pre_k1(kind, sel, n, big)
     post: _
     """
     from exactly_lib.impls.exception import svh_exception
@@ -212,16 +245,23 @@ def k1_consumer(kind: int, sel: int, n: int) -> bool:
     consumer = c['consumer']
     non_negative = consumer.endswith('non-negative')
     bug = c.get('oracle_bug')
-    _install_eval(kind, sel, n)
+    big = ob.concrete_bool(big)
+    _install_eval(kind, sel, n, big)
     try:
-        return _k1_consumer(c, kind, n, consumer, non_negative, bug)
+        return _k1_consumer(c, kind, n, consumer, non_negative, bug, big)
     except SystemExit:
         return ob.post(False)  # the evaluated text ended the program
     finally:
         _uninstall_eval()
 
 
-def _k1_consumer(c, kind, n, consumer, non_negative, bug) -> bool:
+def _rendered(text_renderer) -> str:
+    """the reported message as the reporter prints it (messages are formatted lazily: rendering is part of reporting)"""
+    from exactly_lib.common.report_rendering import print_
+    return print_.print_to_str(text_renderer.render_sequence())
+
+
+def _k1_consumer(c, kind, n, consumer, non_negative, bug, big) -> bool:
     from exactly_lib.impls.exception import svh_exception
     from exactly_lib.impls.exception.validation_error_exception import ValidationErrorException
     from exactly_lib.impls.types.integer import parse_integer, validation
@@ -229,13 +269,16 @@ def _k1_consumer(c, kind, n, consumer, non_negative, bug) -> bool:
     from exactly_lib.test_case.path_resolving_env import PathResolvingEnvironmentPreSds
     from exactly_lib.util.symbol_table import SymbolTable
     if True:
-        must_report = kind != K_INT or (non_negative and n < (1 if bug else 0))
+        not_an_int = kind != K_INT or big
+        must_report = not_an_int or (non_negative and n < (1 if bug else 0))
         if consumer == 'validation.evaluate':
             try:
                 v = validation.evaluate(EXPR)
                 reported = False
-            except ValidationErrorException:
+            except ValidationErrorException as e:
                 v, reported = None, True
+                if not_an_int and EXPR not in _rendered(e.error):
+                    return ob.post(False)
             return ob.post(reported == must_report and (reported or v == n))
         parser = parse_integer.MandatoryIntegerParser(parse_integer.validator_for_non_negative if non_negative else None)
         sdv = parser.parse(new_token_parser(EXPR))
@@ -244,13 +287,18 @@ def _k1_consumer(c, kind, n, consumer, non_negative, bug) -> bool:
             try:
                 sdv.validate_pre_sds(PathResolvingEnvironmentPreSds(None, symbols))
                 reported = False
-            except svh_exception.SvhValidationException:
+            except svh_exception.SvhValidationException as e:
                 reported = True
+                # the message can be rendered (only then is it reported), whatever Python's message holds
+                if not_an_int and EXPR not in _rendered(e.err_msg):
+                    return ob.post(False)
             return ob.post(reported == must_report)
         ddv = sdv.resolve(symbols)
         err = ddv.validator().validate_pre_sds_if_applicable(None)
         reported = err is not None
         if reported != must_report:
+            return ob.post(False)
+        if reported and not_an_int and EXPR not in _rendered(err):
             return ob.post(False)
         if ddv.validator().validate_post_sds_if_applicable(None) is not None:
             return ob.post(False)
@@ -295,9 +343,9 @@ def _site_doc(site):
     return _SITE_DOCS[name]
 
 
-def k1_site(kind: int, sel: int, n: int) -> bool:
+def k1_site(kind: int, sel: int, n: int, big: bool) -> bool:
     """
-    pre: _pre_k1(kind, sel, n)
+    pre: _pre_k1(kind, sel, n, big)
     post: _
     """
     from vsym import exeharness as xh
@@ -306,7 +354,8 @@ def k1_site(kind: int, sel: int, n: int) -> bool:
     site = [s for s in SITES if s[0] == c['site']][0]
     non_negative = site[3] == 'non-negative'
     bug = c.get('oracle_bug')
-    _install_eval(kind, sel, n)
+    big = ob.concrete_bool(big)
+    _install_eval(kind, sel, n, big)
     try:
         plan = xh.Plan(lambda cell: 0)
         # a fresh document per path: instruction objects memoise the evaluated integer
@@ -319,9 +368,20 @@ def k1_site(kind: int, sel: int, n: int) -> bool:
     if run.exception is not None or run.result is None:
         return ob.post(False)
     status = run.result.status.name
-    must_report = kind != K_INT or (non_negative and n < (1 if bug else 0))
+    not_an_int = kind != K_INT or big
+    must_report = not_an_int or (non_negative and n < (1 if bug else 0))
     if must_report:
-        return ob.post(status == 'VALIDATION_ERROR' and not run.result.has_sds)
+        if not (status == 'VALIDATION_ERROR' and not run.result.has_sds):
+            return ob.post(False)
+        if not_an_int:
+            # the report can be printed by the real reporter (messages are formatted lazily), whatever Python's message holds;
+            # (a rejected negative n is left out: the symbolic integer would reach the text layout code)
+            from exactly_lib.common import result_reporting
+            from exactly_lib.util.file_printer import FilePrinter
+            sink = cli.Sink()
+            result_reporting.print_error_message_for_full_result(FilePrinter(sink), run.result)
+            return ob.post(EXPR in sink.value())
+        return ob.post(True)
     return ob.post(status in ('PASS', 'FAIL'))
 
 
@@ -1268,6 +1328,8 @@ DOC_ODD = (
 
 # mistakes that must be reported (exit 65, or HARD_ERROR at the latest); each lies in the region of a finding made while
 # this harness was written (None: control)
+_IND_P = '[setup]\ndef path P = -rel-act x\ndef string S = @[P]@\n'
+_IND_L = '[setup]\ndef list L = a b\ndef string S1 = @[L]@\ndef string S2 = x@[S1]@\n'
 DOC_LATEST = (
     ('integer-expression-syntax', '[assert]\nexit-code == 1+\n', None),
     ('integer-expression-division-by-zero', '[assert]\nexit-code == 1//0\n', REGION_EVAL),
@@ -1285,6 +1347,28 @@ DOC_LATEST = (
     ('glob-pattern-empty-for-path', "[assert]\nexists -rel-home existing.txt : path ''\n", REGION_PATH_GLOB),
     ('glob-pattern-dot-for-path', "[assert]\ndir-contents -rel-home home-dir : -selection path . is-empty\n", REGION_PATH_GLOB),
     ('glob-pattern-not-closed', "[assert]\nexists -rel-home existing.txt : name '['\n", None),
+    # Python's message holds what a careless format() / % of a message template trips over; messages are formatted when the
+    # report is printed
+    ('integer-expression-brace-not-closed', '[assert]\nexit-code == 1+{\n', None),
+    ('integer-expression-brace-unmatched', '[setup]\ntimeout = 1}\n', None),
+    ('integer-expression-brace-mismatch', '[assert]\nstdout num-lines == (1}\n', None),
+    ('integer-expression-message-with-braces', '[assert]\ndir-contents . : -recursive -max-depth "int(\'{x}\')" is-empty\n', None),
+    ('integer-expression-message-with-percent', '[assert]\nexit-code == "int(\'%s %(y)d\')"\n', None),
+    ('line-range-brace-unmatched', '[assert]\nstdout -transformed-by filter -line-nums 1}\n is-empty\n', None),
+    ('integer-expression-brace-via-symbol', '[setup]\ndef string E = 1+{\n[assert]\nexit-code == @[E]@\n', None, 4),
+    ('integer-too-large-to-display', '[assert]\nexit-code == 10**5000\n', None),
+    ('integer-too-large-to-display-negative-timeout', '[setup]\ntimeout = -10**5000\n', None),
+    # a wrong-type symbol reached only indirectly (a string whose definition refers, at some depth, to a symbol that is not a
+    # string), used where only strings are allowed
+    ('indirect-path-in-integer', _IND_P + '[assert]\nexit-code == @[S]@\n', None, 5),
+    ('indirect-list-depth-2-in-timeout', _IND_L + 'timeout = @[S2]@\n', None, 5),
+    ('indirect-path-in-line-range', _IND_P + '[assert]\nstdout -transformed-by filter -line-nums @[S]@\n is-empty\n', None, 5),
+    ('indirect-list-depth-2-in-program-name', _IND_L + '% @[S2]@\n', None, 5),
+    ('indirect-path-in-files-condition-name', _IND_P + '[assert]\ndir-contents . : matches { @[S]@ }\n', None, 5),
+    ('indirect-path-in-env-name', _IND_P + 'env @[S]@ = v\n', None, 4),
+    ('indirect-path-in-file-list-name', _IND_P + 'dir d = { file @[S]@ }\n', None, 4),
+    ('indirect-list-depth-2-in-file-name', _IND_L + 'file @[S2]@ = x\n', None, 5),
+    ('indirect-path-in-depth', _IND_P + '[assert]\ndir-contents . : -recursive -min-depth @[S]@ is-empty\n', None, 5),
 )
 
 
@@ -1317,7 +1401,9 @@ def k7_document(i: int) -> bool:
         r = cli.run_cli(text)
         return ob.post(documented_outcome(r))
     if c['odd'] == 'latest':
-        name, text, region = ob.pick(DOC_LATEST, i)
+        item = ob.pick(DOC_LATEST, i)
+        name, text, region = item[:3]
+        line = item[3] if len(item) > 3 else 2
         r = cli.run_cli(text)
         if name.startswith('glob-pattern-'):
             # a glob pattern has no invalid form in the manual: any documented outcome (but not INTERNAL_ERROR)
@@ -1325,7 +1411,8 @@ def k7_document(i: int) -> bool:
         # an integer expression or a regular expression is known before anything runs: exit 65; a replacement string is
         # only expanded when a match is found: exit 65, or HARD_ERROR of the instruction at the latest
         accepted = REPORTED if name.startswith('replacement-') else cli.NOT_EXECUTED[:2]
-        return ob.post(documented_outcome(r) and r['ident'] in accepted and _shows(r['stderr'], r['path'], 2, text.split('\n')[1]))
+        return ob.post(documented_outcome(r) and r['ident'] in accepted
+                       and _shows(r['stderr'], r['path'], line, text.split('\n')[line - 1]))
     name, text, idents, line, quoted = ob.pick(DOC_MISTAKES, i)
     if c.get('oracle_bug'):
         idents = VAL
@@ -1354,9 +1441,10 @@ def obligations(tier: str) -> List[Ob]:
     names = 'the sample %s of the exception catalogue' % (list(exc.QUICK),) if quick else \
         'every exception class of the catalogue (%d: all Exception subclasses of builtins, Exception, re.error, an unknown class)' % exc.N
     # ---- K1
-    b1 = ('eval returns every integer n in Z / each of %d non-integer values / raises %s / raises SystemExit' % (len(NON_INTS), names))
+    b1 = ('eval returns every integer n in Z (str(n) succeeds or raises ValueError) / each of %d non-integer values / raises %s / raises '
+          'SystemExit' % (len(NON_INTS), names))
     obs.append(Ob(name='K1:evaluate', fn='k1_evaluate', case=dict(quick=quick), kernel='K1', bound=b1, timeout=300,
-                  real=REAL_K1[:2], stubs=(STUB_EVAL, STUB_EXC), entry='evaluate_integer.python_evaluate',
+                  real=REAL_K1[:2], stubs=(STUB_EVAL, STUB_STR, STUB_EXC), entry='evaluate_integer.python_evaluate',
                   outside=('which exceptions eval really raises for which text',)))
     obs.append(Ob(name='K1:evaluate:seeded-oracle-error', fn='k1_evaluate', case=dict(quick=True, oracle_bug=True), kernel='K1',
                   bound='seeded: an integer is claimed to be rejected', timeout=300, expect=ob.REFUTE))
@@ -1367,7 +1455,7 @@ def obligations(tier: str) -> List[Ob]:
                             '; consumer %s built by MandatoryIntegerParser from the token' % cons, timeout=400,
                       outside=(() if nb is None else ('integers outside [-%d, %d] under the non-negative restriction (its message '
                                                       'formats n)' % (nb, nb),)),
-                      real=REAL_K1, stubs=(STUB_EVAL, STUB_EXC), entry='parse_integer.MandatoryIntegerParser.parse -> validate'))
+                      real=REAL_K1, stubs=(STUB_EVAL, STUB_STR, STUB_EXC), entry='parse_integer.MandatoryIntegerParser.parse -> validate'))
     obs.append(Ob(name='K1:consumer:seeded-oracle-error', fn='k1_consumer',
                   case=dict(quick=True, consumer='ddv-validator-non-negative', oracle_bug=True, n_bound=3), kernel='K1',
                   bound='seeded: 0 is claimed to be rejected by the non-negative restriction', timeout=300, expect=ob.REFUTE))
@@ -1379,7 +1467,7 @@ def obligations(tier: str) -> List[Ob]:
                             '; test case `[%s] %s` through the real parser and executor' % (s[1], s[2].replace('\n', ' / ')),
                       outside=(() if nb is None else ('integers outside [-%d, %d] under the non-negative restriction (its message '
                                                       'formats n)' % (nb, nb),)),
-                      timeout=900, real=REAL_K1_SITE, stubs=(STUB_EVAL, STUB_EXC, 'stub actor (vsym.exeharness)', 'counting sandbox resolver'),
+                      timeout=900, real=REAL_K1_SITE, stubs=(STUB_EVAL, STUB_STR, STUB_EXC, 'stub actor (vsym.exeharness)', 'counting sandbox resolver'),
                       entry='processors._Parser.apply -> full_execution.execute'))
     obs.append(Ob(name='K1:site:seeded-oracle-error', fn='k1_site', case=dict(quick=True, site='timeout', oracle_bug=True, n_bound=3),
                   kernel='K1', bound='seeded: timeout = 0 is claimed to be a validation error', timeout=600, expect=ob.REFUTE))
